@@ -356,30 +356,7 @@ def render(ast, rng=None, relabel=True):
 # ===================================================================== match
 HETERO = (7, 8, 15, 16)
 _PT = Chem.GetPeriodicTable()
-
-
-def _cmp(op, a, b):
-    op = op or '='
-    return {'=': a == b, '>': a > b, '<': a < b, '>=': a >= b,
-            '<=': a <= b}[op]
-
-
-def element_ok(sym, atom):
-    z = atom.GetAtomicNum()
-    if sym == '$':
-        return z > 0
-    if sym == '&':
-        return z in HETERO
-    if sym == 'X':
-        return z > 1
-    if sym == 'M':
-        return z > 19
-    if sym[0].islower():
-        el = sym[0].upper() + sym[1:]
-        return _z(el) == z and atom.GetIsAromatic()
-    return _z(sym) == z
-
-
+BT = Chem.BondType
 _Z = {}
 
 
@@ -394,12 +371,67 @@ def _z(el):
     return _Z[el]
 
 
-def type_ok(at, atom, verdict):
+def _cmp(op, a, b):
+    op = op or '='
+    return {'=': a == b, '>': a > b, '<': a < b, '>=': a >= b,
+            '<=': a <= b}[op]
+
+
+class Facts(object):
+    """Molecule facts read once from RDKit (the INPUT of the matching, not
+    the thing under test): per atom element / charge / radical electrons /
+    aromatic flag / ring membership, adjacency with bond type and ring flag,
+    SSSR rings."""
+    def __init__(self, m):
+        self.mol = m
+        self.n = m.GetNumAtoms()
+        self.z = [a.GetAtomicNum() for a in m.GetAtoms()]
+        self.q = [a.GetFormalCharge() for a in m.GetAtoms()]
+        self.r = [a.GetNumRadicalElectrons() for a in m.GetAtoms()]
+        self.arom = [a.GetIsAromatic() for a in m.GetAtoms()]
+        self.inring = [a.IsInRing() for a in m.GetAtoms()]
+        self.nbrs = [[] for _ in range(self.n)]
+        self.bond = {}
+        for b in m.GetBonds():
+            i, j = b.GetBeginAtomIdx(), b.GetEndAtomIdx()
+            info = (b.GetBondType(), b.IsInRing())
+            self.nbrs[i].append((j, info))
+            self.nbrs[j].append((i, info))
+            self.bond[(i, j)] = info
+            self.bond[(j, i)] = info
+        self.rings = [tuple(r) for r in m.GetRingInfo().AtomRings()]
+        self.ring_sizes = [[] for _ in range(self.n)]
+        for r in self.rings:
+            for i in r:
+                self.ring_sizes[i].append(len(r))
+        self.total_charge = sum(self.q)
+        self.has_arom = any(self.arom)
+        self.has_cc_double = any(
+            info[0] == BT.DOUBLE and self.z[i] == 6 and self.z[j] == 6
+            for (i, j), info in self.bond.items())
+
+
+def element_ok(sym, i, f):
+    z = f.z[i]
+    if sym == '$':
+        return z > 0
+    if sym == '&':
+        return z in HETERO
+    if sym == 'X':
+        return z > 1
+    if sym == 'M':
+        return z > 19
+    if sym[0].islower():
+        return _z(sym[0].upper() + sym[1:]) == z and f.arom[i]
+    return _z(sym) == z
+
+
+def type_ok(at, i, f, verdict):
     """verdict: list collecting constructs without an independent meaning."""
-    if not element_ok(at['symbol'], atom):
+    if not element_ok(at['symbol'], i, f):
         return False
     sfx = at['suffix']
-    q, r = atom.GetFormalCharge(), atom.GetNumRadicalElectrons()
+    q, r = f.q[i], f.r[i]
     if sfx is None:
         if q != 0 or r != 0:
             return False
@@ -427,27 +459,23 @@ def type_ok(at, atom, verdict):
     elif sfx == '*':
         verdict.append('* suffix')
     pre = at['prefix']
-    if pre == 'aromatic' and not atom.GetIsAromatic():
+    if pre == 'aromatic' and not f.arom[i]:
         return False
-    if pre == 'nonaromatic' and atom.GetIsAromatic():
+    if pre == 'nonaromatic' and f.arom[i]:
         return False
-    if pre == 'ringatom' and not atom.IsInRing():
+    if pre == 'ringatom' and not f.inring[i]:
         return False
-    if pre == 'nonringatom' and atom.IsInRing():
+    if pre == 'nonringatom' and f.inring[i]:
         return False
     if pre == 'allylic':
         verdict.append('allylic prefix')
-        if not any(b.GetBondType() == Chem.BondType.DOUBLE
-                   for b in atom.GetBonds()):
+        if not any(info[0] == BT.DOUBLE for _, info in f.nbrs[i]):
             return False
     return True
 
 
-BT = Chem.BondType
-
-
-def bond_ok(kind, bond):
-    t = bond.GetBondType()
+def bond_ok(kind, info):
+    t, inring = info
     if kind == 'single':
         return t == BT.SINGLE
     if kind == 'double':
@@ -459,9 +487,9 @@ def bond_ok(kind, bond):
     if kind == 'aromatic':
         return t == BT.AROMATIC
     if kind == 'ring':
-        return bond.IsInRing()
+        return inring
     if kind == 'nonring':
-        return not bond.IsInRing()
+        return not inring
     if kind == 'any':
         return True
     if kind == 'strong':
@@ -471,48 +499,40 @@ def bond_ok(kind, bond):
     raise RingSyntax(kind)
 
 
-def constraint_ok(c, atom, mol, rings, verdict):
+def constraint_ok(c, i, f, verdict):
     if c['kind'] == 'conn':
         cnt = 0
-        for b in atom.GetBonds():
-            nb = b.GetOtherAtom(atom)
-            if type_ok(c['type'], nb, verdict) and \
-                    bond_ok(c['bond'] or 'single', b):
+        kind = c['bond'] or 'single'
+        for j, info in f.nbrs[i]:
+            if bond_ok(kind, info) and type_ok(c['type'], j, f, verdict):
                 cnt += 1
         res = _cmp('>=' if c['n'] is None else c['op'],
                    cnt, 1 if c['n'] is None else c['n'])
     elif c['kind'] == 'ringsize':
-        idx = atom.GetIdx()
-        res = any(idx in r and _cmp(c['op'], len(r), c['n']) for r in rings)
+        res = any(_cmp(c['op'], n, c['n']) for n in f.ring_sizes[i])
     elif c['kind'] == 'nring':
-        idx = atom.GetIdx()
-        res = _cmp(c['op'], sum(1 for r in rings if idx in r), c['n'])
+        res = _cmp(c['op'], len(f.ring_sizes[i]), c['n'])
     else:
-        res = _cmp(c['op'], atom.GetNumRadicalElectrons(), c['n'])
+        res = _cmp(c['op'], f.r[i], c['n'])
     return (not res) if c['neg'] else res
 
 
-def mol_prefix_ok(pre, mol):
+def mol_prefix_ok(pre, f):
     if pre['charge']:
-        tot = sum(a.GetFormalCharge() for a in mol.GetAtoms())
-        if tot != {'positive': 1, 'negative': -1, 'neutral': 0}[
+        if f.total_charge != {'positive': 1, 'negative': -1, 'neutral': 0}[
                 pre['charge']]:
             return False
     if pre['sat']:
-        cc = any(b.GetBondType() == BT.DOUBLE and
-                 b.GetBeginAtom().GetAtomicNum() == 6 and
-                 b.GetEndAtom().GetAtomicNum() == 6 for b in mol.GetBonds())
         if pre['sat'] == 'aromatic':
-            if not any(a.GetIsAromatic() for a in mol.GetAtoms()):
+            if not f.has_arom:
                 return False
         elif pre['sat'] == 'olefinic':
-            if not cc:
+            if not f.has_cc_double:
                 return False
-        elif cc:
+        elif f.has_cc_double:
             return False
     if pre['cyc']:
-        nr = mol.GetRingInfo().NumRings()
-        if (pre['cyc'] == 'cyclic') != (nr > 0):
+        if (pre['cyc'] == 'cyclic') != (len(f.rings) > 0):
             return False
     return True
 
@@ -539,70 +559,94 @@ def stereo_ok(st, assign, mol):
     return (not res) if st['neg'] else res
 
 
-def match(ast, mol, add_hs=True, limit=200000):
-    """-> (set of index tuples, no-verdict notes).  The molecule facts (ring
-    membership, aromatic flags, charges, radicals, bond types) are read from
-    RDKit: that is the input, not the thing under test."""
-    m = Chem.AddHs(mol) if add_hs else mol
-    verdict = []
-    if not mol_prefix_ok(ast['prefix'], m):
-        return set(), verdict
-    rings = [tuple(r) for r in m.GetRingInfo().AtomRings()]
-    n = len(ast['atoms'])
-    need = {}          # atom index -> bonds to check once it is assigned
-    for (i, j, kind) in ast['bonds']:
-        need.setdefault(max(i, j), []).append((i, j, kind))
+def _plan(ast):
+    need = {}
     anchor = {}
     for (i, j, kind) in ast['bonds']:
+        need.setdefault(max(i, j), []).append((i, j, kind))
         if i not in anchor and j < i:
             anchor[i] = j
-    atoms = list(m.GetAtoms())
-    out = set()
+    return need, anchor
+
+
+def search(ast, f, first=None, stop_at_first=False, limit=200000):
+    """All (or the first) embeddings; `first` pins pattern atom 0."""
+    verdict = []
+    out = []
+    if not mol_prefix_ok(ast['prefix'], f):
+        return out, verdict
+    n = len(ast['atoms'])
+    need, anchor = _plan(ast)
     assign = [None] * n
     used = set()
+    stereo = ast.get('stereo') or []
 
-    def ok_atom(k, a):
-        if not type_ok(ast['atoms'][k]['type'], a, verdict):
+    def ok_atom(k, idx):
+        a = ast['atoms'][k]
+        if not type_ok(a['type'], idx, f, verdict):
             return False
-        for (i, j, kind) in need.get(k, []):
+        for (i, j, kind) in need.get(k, ()):
             other = j if i == k else i
             if other == k:
                 return False          # a bond to itself cannot exist
             if assign[other] is None:
                 continue
-            b = m.GetBondBetweenAtoms(a.GetIdx(), assign[other])
-            if b is None or not bond_ok(kind, b):
+            info = f.bond.get((idx, assign[other]))
+            if info is None or not bond_ok(kind, info):
                 return False
-        for c in ast['atoms'][k]['constraints']:
-            if not constraint_ok(c, a, m, rings, verdict):
+        for c in a['constraints']:
+            if not constraint_ok(c, idx, f, verdict):
                 return False
         return True
 
     def rec(k):
-        if len(out) > limit:
-            return
         if k == n:
-            if all(stereo_ok(st, assign, m) for st in ast.get('stereo', [])):
-                out.add(tuple(assign))
-            return
-        if k in anchor and assign[anchor[k]] is not None:
-            cands = [b.GetOtherAtom(m.GetAtomWithIdx(assign[anchor[k]]))
-                     for b in m.GetAtomWithIdx(assign[anchor[k]]).GetBonds()]
+            if all(stereo_ok(st, assign, f.mol) for st in stereo):
+                out.append(tuple(assign))
+                return stop_at_first
+            return False
+        if len(out) > limit:
+            return True
+        if k == 0 and first is not None:
+            cands = [first]
+        elif k in anchor and assign[anchor[k]] is not None:
+            cands = [j for j, _ in f.nbrs[assign[anchor[k]]]]
         else:
-            cands = atoms
-        for a in cands:
-            idx = a.GetIdx()
+            cands = range(f.n)
+        for idx in cands:
             if idx in used:
                 continue
             assign[k] = idx
-            if ok_atom(k, a):
+            if ok_atom(k, idx):
                 used.add(idx)
-                rec(k + 1)
+                stop = rec(k + 1)
                 used.discard(idx)
+                if stop:
+                    assign[k] = None
+                    return True
             assign[k] = None
+        return False
 
     rec(0)
     return out, sorted(set(verdict))
+
+
+def match(ast, mol, add_hs=True, limit=200000, facts=None):
+    """-> (set of index tuples in declaration order, no-verdict notes)."""
+    if facts is None:
+        facts = Facts(Chem.AddHs(mol) if add_hs else mol)
+    out, verdict = search(ast, facts, limit=limit)
+    return set(out), verdict
+
+
+def first_atoms(ast, facts):
+    """Atoms that can be the first (centre) atom of some embedding."""
+    res = set()
+    for i in range(facts.n):
+        out, _ = search(ast, facts, first=i, stop_at_first=True)
+        if out:
+            res.add(i)
+    return res
 
 
 # ================================================================= generator
